@@ -36,7 +36,54 @@ def run(ck):
                          "meaning": "sched2 k A B: thread A parked before its k-th mutex acquisition while thread B submits; schedrx k A bytes: while the receiver thread processes the uplink bytes; the calls did not return within 12 s",
                          "reason": "calls blocked forever under this schedule (deadlock)"})
     ck.oblige("forced-schedule deadlock probe: %d schedules return" % len(probes), hung == 0, "%d hung" % hung)
-    ck.coverage.update({"evaluations": side.get("contexts", 0), "distinct_nontrivial": len(side.get("nesting_pairs", [])), "schedules_forced": len(probes),
+    # lock-leak battery on the real code: public high-level calls with argument classes {valid, unknown id,
+    # unknown second id, out-of-range value, disconnected board} and uplink messages; after each, no library
+    # lock may still be held (trylock probe while nothing is in flight)
+    import os
+    cfgdir = os.path.join(vlib.REPO, "test", "unit", "state_tests_config")
+    uid = "da000d680001ee"
+    calls = []
+    for conn in (0, 1):
+        calls.append("rx " + hexs(flowgen.frame(flowgen.upmsg([], 1, 0x8D if conn else 0x8C, [1, 1] + [0xDA, 0x00, 0x0D, 0x68, 0x00, 0x01, 0xEE]))))
+        for pt in ("point1", "point2", "nosuch"):
+            for asp in ("normal", "reverse", "nosuch"): calls.append("c9 switch_point %s %s" % (pt, asp))
+        for sg in ("signal1", "nosuch"):
+            for asp in ("green", "red", "nosuch"): calls.append("c9 set_signal %s %s" % (sg, asp))
+        for pe in ("led1", "nosuch"):
+            for asp in ("state1", "nosuch"): calls.append("c9 set_peripheral %s %s" % (pe, asp))
+        for tr in ("train1", "nosuch"):
+            for bo in ("board1", "nosuch"):
+                for sp in (0, 5, -5, 126, 127, -200): calls.append("c9 speed %s %d %s" % (tr, sp, bo))
+                for sp in (0, 9, -9, 10): calls.append("c9 cspeed %s %d %s" % (tr, sp, bo))
+                calls.append("c9 estop %s %s" % (tr, bo))
+                for pe in ("light", "nosuch"):
+                    for st in (0, 1, 2, 255): calls.append("c9 tper %s %s %d %s" % (tr, pe, st, bo))
+        for bo in ("board1", "nosuch"):
+            for v in (0, 1): calls.append("c9 booster %s %d" % (bo, v))
+            for v in (0, 2, 3, 5, 200): calls.append("c9 output %s %d" % (bo, v))
+            calls.append("c9 reverser reverser1 %s" % bo); calls.append("c9 reverser nosuch %s" % bo)
+        calls.append("c9 output_all 2"); calls.append("c9 state")
+        for ty, data in ((0xA0, [0]), (0xA1, [0]), (0xA3, [0, 0x23, 0x01]), (0xE2, [0x23, 0x01, 1]), (0xB8, [2, 1, 2, 0, 0]), (0xC0, [0x12, 0, 1]), (0xB0, [0x80]), (0xE1, [3])):
+            calls.append("rx " + hexs(flowgen.frame(flowgen.upmsg([1], 0, ty, data))))
+    L = ["start 0 %s 0" % cfgdir, "logw 0"]
+    for i, c in enumerate(calls): L += ["case b%d" % i, c, "lockprobe"]
+    exe2 = vlib.build_harness()
+    vlib.CURRENT_EXTS = ("C09", "sched")
+    rc, out, err = vlib.run_driver(exe2, "\n".join(L) + "\n", timeout=240)
+    bc = vlib.split_cases(out); leaks = 0
+    for i, c in enumerate(calls):
+        ls = bc.get("b%d" % i)
+        held = [l for l in (ls or []) if l.startswith("locks-held")]
+        if ls is None or not held:
+            leaks += 1
+            ck.violation("battery.call-did-not-return", {"property": "C11", "call": c, "config": cfgdir, "history": calls[:i + 1][-12:], "reason": "the driver stopped at this call (blocked on a lock that an earlier call left held, or crashed)", "stderr": err[-400:]})
+            break
+        if held[-1] != "locks-held none":
+            leaks += 1
+            ck.violation("battery.lock-held-after-return", {"property": "C11", "call": c, "config": cfgdir, "history": calls[:i + 1][-12:], "observed": held[-1], "reason": "a lock is still held after the call returned"})
+            break
+    ck.oblige("lock-leak battery: %d public calls / uplink messages return with every lock released" % len(calls), leaks == 0, "%d leaks" % leaks)
+    ck.coverage.update({"evaluations": side.get("contexts", 0), "distinct_nontrivial": len(side.get("nesting_pairs", [])), "schedules_forced": len(probes), "battery_calls": len(calls),
                         "rule": "every function of src/**/*.c translated from the clang AST; every public function and internal thread checked context-sensitively from the empty lock set (evaluations = distinct (function, boolean arguments, held locks) contexts explored by the translator's mirror; distinct_nontrivial = distinct nested lock pairs observed)",
                         "samples": [{"nesting": x[:2], "via": x[2][-3:]} for x in side.get("nesting_pairs", [])[:6]],
                         "functions_translated": len(side.get("functions", [])), "locks": side.get("rank", {}), "exhaustive": True})
